@@ -113,9 +113,14 @@ impl PSock {
         }
     }
     pub fn send(&self, ptp: &[u8]) -> bool {
+        self.send_bytes(ptp, true)
+    }
+
+    /// `patch`: write the instance's sdoId and domain into the header (false: the bytes go out exactly as given)
+    pub fn send_bytes(&self, ptp: &[u8], patch: bool) -> bool {
         // the instance's sdoId and domain (majorSdoId: high nibble of octet 0, domain: octet 4, minorSdoId: octet 5)
         let mut patched = ptp.to_vec();
-        if patched.len() >= 6 {
+        if patch && patched.len() >= 6 {
             patched[0] = (patched[0] & 0x0f) | (((self.sdo >> 8) as u8) << 4);
             patched[4] = self.domain;
             patched[5] = self.sdo as u8;
@@ -1986,6 +1991,133 @@ pub fn case_c02(w: &mut World, t: &mut Tape) -> E2eOut {
     E2eOut { out, inconclusive: None }
 }
 
+// ---------------------------------------------------------------- C03 case (hostile input against the real daemon)
+
+/// One case: 200-1500 frames are thrown at both ports of the daemon (it is slave of the harness's parent on one and
+/// master on the other): well-formed random messages of every type, many of them from the identities the daemon is
+/// in a relation with (its parent, a requester, itself) and with extreme field values; mutated valid frames; raw
+/// random bytes of 0..1400 octets; with the daemon's domain/sdoId written in or not. Afterwards the daemon has ten
+/// seconds to show that it is alive: Announces on the master port, a fresh Delay_Req answered, the observation
+/// socket answering. A panic anywhere in the library or in the daemon kills the process.
+pub fn case_c03(w: &mut World, t: &mut Tape) -> E2eOut {
+    let mut out = CaseOut::new();
+    if !w.steady() {
+        let d = Instant::now() + Duration::from_millis(2000);
+        w.run_until(d);
+        if !w.steady() {
+            return E2eOut { out, inconclusive: Some(format!("daemon not in (Slave, Master) before the case: {:?}", w.port_states())) };
+        }
+    }
+    let n = t.urange(200, 1500) as usize;
+    let me_slave = w.slave_port_id();
+    let me_master = PortId { clock: w.own_identity, port: (1 - w.slave_idx) as u16 + 1 };
+    let mut kinds = [0u64; 4];
+    let mut sent_bytes = 0usize;
+    for i in 0..n {
+        let kind = t.weighted(&[4, 3, 2, 3]);
+        kinds[kind] += 1;
+        let mut bytes: Vec<u8> = match kind {
+            0 => gen_msg(t).encode(),
+            1 => {
+                let mut b = gen_msg(t).encode();
+                crate::c04::mutate(t, &mut b);
+                b
+            }
+            2 => {
+                let l = match t.below(3) {
+                    0 => t.below(40) as usize,
+                    1 => t.below(200) as usize,
+                    _ => t.below(1400) as usize,
+                };
+                t.bytes(l)
+            }
+            _ => {
+                // a message the daemon has a use for, from an identity it knows, with values at the edges
+                let ty = *t.pick(&[T_SYNC, T_FOLLOW_UP, T_DELAY_RESP, T_ANNOUNCE, T_DELAY_REQ, T_PDELAY_REQ, T_PDELAY_RESP, T_PDELAY_RESP_FUP]);
+                let mut m = gen_msg_of(t, ty);
+                m.header.source = *t.pick(&[PARENT, OTHER, me_slave, me_master]);
+                m.header.version = 2;
+                m.header.minor_version = 1;
+                m.header.correction = *t.pick(&[0i64, i64::MAX, i64::MIN, -1, 1 << 62, -(1 << 62), 0x7fff_ffff_ffff_0000u64 as i64]);
+                if let Some(seq) = w.seen_a_delay_req.last() {
+                    if t.bool() {
+                        m.header.seq = *seq;
+                    }
+                }
+                match &mut m.body {
+                    RBody::DelayResp { requesting, .. } | RBody::PdelayResp { requesting, .. } | RBody::PdelayRespFup { requesting, .. } => *requesting = *t.pick(&[me_slave, me_master]),
+                    RBody::Announce(a) => {
+                        a.steps_removed = *t.pick(&[0u16, 254, 255, 65535]);
+                        a.gm_priority1 = *t.pick(&[0u8, 1, 255]);
+                    }
+                    _ => {}
+                }
+                let mut b = m.encode();
+                if t.chance(1, 6) {
+                    crate::c04::mutate(t, &mut b);
+                }
+                b
+            }
+        };
+        bytes.truncate(1400);
+        sent_bytes += bytes.len();
+        let patch = !t.chance(1, 4);
+        if t.bool() {
+            w.a1.send_bytes(&bytes, patch);
+        } else {
+            w.b1.send_bytes(&bytes, patch);
+        }
+        if i % 16 == 15 {
+            let d = Instant::now() + Duration::from_millis(2);
+            w.run_until(d);
+        }
+    }
+    let rendered = json!({"frames": n, "bytes": sent_bytes, "kinds(valid random, mutated, raw bytes, edge values from known identities)": kinds});
+    out.render = rendered.clone();
+    // the daemon may have changed its mind about its parent in the meantime; what counts is that it lives
+    let probe_src = PortId { clock: [0x00, 0x1b, 0x19, 0xee, 0, 0, 0, 0x78], port: 1 };
+    let r0 = Instant::now();
+    let mut ok = false;
+    let mut round = 0u16;
+    while r0.elapsed() < Duration::from_secs(10) {
+        if !w.alive() {
+            break;
+        }
+        w.seen_b.clear();
+        w.seen_b_delay_resp.clear();
+        let d = Instant::now() + Duration::from_millis(1000);
+        w.run_until(d);
+        let mut answered = false;
+        for k in 0..2u16 {
+            let seq = 0x7800 + round * 4 + k;
+            let m = RMsg::new(T_DELAY_REQ, probe_src, seq, RBody::DelayReq { origin: RTs::default() });
+            w.send_b(&m);
+            let d = Instant::now() + Duration::from_millis(250);
+            w.run_until(d);
+            if w.seen_b_delay_resp.contains(&seq) {
+                answered = true;
+                break;
+            }
+        }
+        round += 1;
+        let announces = w.seen_b.iter().filter(|a| a.msg.header.source.clock == w.own_identity).count();
+        if w.steady() && announces >= 2 && answered && w.observe().is_some() {
+            ok = true;
+            break;
+        }
+    }
+    if !w.alive() {
+        let log = std::fs::read_to_string(w.dir.join("daemon.log")).unwrap_or_default();
+        let clean: String = log.lines().filter(|l| l.contains("panicked") || l.contains("overflow") || l.contains("unwrap")).take(3).collect::<Vec<_>>().join(" | ");
+        out.fail("daemon: the process died on hostile input", format!("{} ; {}", clean, rendered));
+    } else if !ok {
+        out.fail("daemon: not back in (Slave, Master), announcing and answering within 10 s after hostile input", format!("states {:?} ; {}", w.port_states(), rendered));
+    }
+    out.nontrivial = Some(hash_of(&rendered.to_string()));
+    out.label("daemon:hostile-input");
+    E2eOut { out, inconclusive: None }
+}
+
 // ---------------------------------------------------------------- C11 case (what the real daemon's master port announces)
 
 fn announce_carries(m: &RMsg, ann: &RAnnounce, flags1: u8) -> Option<String> {
@@ -2644,6 +2776,7 @@ pub fn worker_main(args: &[String]) -> i32 {
             "C14" => case_c14(&mut w, &mut tape),
             "C13" => case_c13(&mut w, &mut tape),
             "C11" => case_c11(&mut w, &mut tape),
+            "C03" => case_c03(&mut w, &mut tape),
             "C06" => case_c06(&mut w, &mut tape, idx as u32),
             _ => {
                 println!("{}", json!({"fatal": format!("no end-to-end case for {}", prop)}));
